@@ -4,14 +4,14 @@ use gluon::RootedThread;
 use gluon_sim::render;
 fn main() {
     let vm = gluon::new_vm();
-    vm.get_database_mut().implicit_prelude(false);
+    vm.get_database_mut().implicit_prelude(std::env::var("TRY_PRELUDE").is_ok());
     vm.get_database_mut().run_io(true);
     vm.load_script("simtypes", "type Tree = | Leaf Int | Node Tree String Tree | Tip\n{ Tree }\n").unwrap();
     for (i, p) in std::env::args().skip(1).enumerate() {
         let p = p.replace("\\n", "\n");
         match vm.run_expr::<OpaqueValue<RootedThread, Hole>>(&format!("t{}", i), &p) {
             Ok((v, t)) => println!("OK {} : {}  stack={:?}", render::render(v.get_variant()), t, vm.verif_stack_len()),
-            Err(e) => println!("ERR {}", e.to_string().lines().take(6).collect::<Vec<_>>().join(" | ")),
+            Err(e) => println!("ERR {}", e.to_string().lines().take(std::env::var("TRY_LINES").ok().and_then(|s| s.parse().ok()).unwrap_or(6)).collect::<Vec<_>>().join(" | ")),
         }
     }
 }
